@@ -307,3 +307,327 @@ def regenerate(ctx):
         ctx.fail("translator gen/c07_filters.py no longer recognises filters.py/config.py: %s" % e,
                  dict(correspondence="gen/c07_filters.py -> coq/gen/C07Filters.v", error=str(e)), kind="tie", no_input=True)
         return False
+
+
+# --------------------------------------------------------------------------
+# correspondence: implementation values certified against the R-valued model
+
+REQ = (
+    "From Coq Require Import Reals Lra Lia ZArith.\n"
+    "From Interval Require Import Tactic.\n"
+    "From Coquelicot Require Import Complex.\n"
+    "From Flocq Require Import Core.Raux.\n"
+    "From Verif Require Import gen.Scales lib.Cert lib.C07_Base C07.Model C07.Forms lib.C07_Cert gen.C07Filters.\n"
+    "Open Scope R_scope.\n"
+)
+
+
+def scale_terms(scale):
+    n = scale["name"]
+    if n == "mel":
+        return "mel_h2s", "mel_s2h"
+    if n == "bark":
+        return "bark_h2s", "bark_s2h"
+    if n == "linear":
+        return "(linear_h2s %s %s)" % (q(scale["low_hz"]), q(scale["slope_hz"])), "(linear_s2h %s %s)" % (q(scale["low_hz"]), q(scale["slope_hz"]))
+    if n == "octave":
+        return "(octave_h2s %s)" % q(scale["low_hz"]), "(octave_s2h %s)" % q(scale["low_hz"])
+    raise ValueError(n)
+
+
+def b(x):
+    return "true" if x else "false"
+
+
+def near(expr, v, tol):
+    return "Rabs (%s - %s) <= %s" % (expr, q(float(v)), q(tol))
+
+
+def abs_tol(v, rel=1e-9):
+    return rel * max(1.0, abs(float(v)))
+
+
+class Goals:
+    """Collects certified-comparison goals; one failing goal = one mismatching case."""
+
+    def __init__(self, eps=5e-4):
+        self.items = []  # (prelude, goal text, case dict)
+        self.eps = eps
+
+    def add(self, prelude, stmt, proof, case):
+        self.items.append((prelude, "Goal %s.\nProof. %s Qed.\n" % (stmt, proof), case))
+
+
+def eff_high(cfg):
+    return float(cfg["rate"] // 2) if cfg["high_hz"] is None else float(cfg["high_hz"])
+
+
+def edge_notations(cfg, fi):
+    h2s, s2h = scale_terms(cfg["scale"])
+    args = "%s %s %s %s %s" % (h2s, s2h, q(cfg["low_hz"]), q(eff_high(cfg)), q(cfg["num_filts"]))
+    return (
+        "Local Notation e0 := (bank_edge %s %s) (only parsing).\n" % (args, q(fi))
+        + "Local Notation e1 := (bank_edge %s %s) (only parsing).\n" % (args, q(fi + 1))
+        + "Local Notation rate := (%s) (only parsing).\n" % q(cfg["rate"])
+        + "Local Notation eps := (src_eps) (only parsing).\n"
+    )
+
+
+def edges_float(F, cfg, fi):
+    """the constructor's edge computation, in floats (only used as centres of certified enclosures)"""
+    from pydrobert.speech.alias import alias_factory_subclass_from_arg
+    from pydrobert.speech.scales import ScalingFunction
+
+    sf = alias_factory_subclass_from_arg(ScalingFunction, dict(cfg["scale"]))
+    lo, hi = sf.hertz_to_scale(cfg["low_hz"]), sf.hertz_to_scale(eff_high(cfg))
+    dl = (hi - lo) / (cfg["num_filts"] + 1)
+    return float(sf.scale_to_hertz(lo + dl * (fi + 0.5))), float(sf.scale_to_hertz(lo + dl * (fi + 1.5)))
+
+
+def stage(uid, items):
+    """items: [(short name, Coq term (notation), float centre, radius)], outermost term first.
+    Emits one certified enclosure lemma per item and a tactic that replaces the terms by
+    variables known only through their enclosures (keeps the Interval goals small)."""
+    out = ""
+    for name, term, f, rad in items:
+        out += "Lemma %s_ok_%s : %s <= %s <= %s.\nProof. unfold src_eps; split; c07. Qed.\n" % (
+            name, uid, q(f - rad), term, q(f + rad))
+    tac = "Ltac stage_%s := " % uid
+    tac += "; ".join("pose proof %s_ok_%s" % (name, uid) for name, _, _, _ in items)
+    tac += "; " + "; ".join("set (v_%s := %s) in *" % (name, term) for name, term, _, _ in items)
+    tac += "; clearbody " + " ".join("v_%s" % name for name, _, _, _ in items) + ".\n"
+    return out + tac
+
+
+def int_bounds(expr, n, tol=1e-7):
+    """n = ceil(expr) up to round-off"""
+    return "IZR (%d) - 1 - %s < %s <= IZR (%d) + %s" % (n, q(tol), expr, n, q(tol))
+
+
+def gabor_goals(G, np, cfg, bank, fi, rng, F=None):
+    uid = "g%d" % len(G.items)
+    l2 = b(cfg["scale_l2_norm"])
+    e0f, e1f = edges_float(F, cfg, fi)
+    cf = (e0f + e1f) / 2
+    bw = math.sqrt(math.pi) / 2 if cfg["erb"] else math.sqrt(0.3 * math.log(10))
+    sdf = bw / ((cf - e0f) * 2 * math.pi / cfg["rate"])
+    xif = cf * 2 * math.pi / cfg["rate"]
+    eps = G.eps
+    fsc = -2 * math.log(eps) + ((math.log(2) + 0.5 * math.log(math.pi)) if cfg["scale_l2_norm"] else 0.0)
+    rad = (math.log(sdf) + fsc) if cfg["scale_l2_norm"] else fsc
+    if rad <= 0:
+        return
+    dangf = math.sqrt(rad) / sdf
+    pre0 = edge_notations(cfg, fi) + (
+        "Local Notation sd := (gabor_std %s rate e0 e1) (only parsing).\n" % b(cfg["erb"])
+        + "Local Notation xi := (h2a ((e0 + e1) / 2) rate) (only parsing).\n"
+        + "Local Notation dang := (gabor_diff_ang eps %s sd) (only parsing).\n" % l2
+    )
+    pre = pre0 + stage(uid, [("dang", "dang", dangf, 1e-12 * max(1.0, dangf)), ("sd", "sd", sdf, 1e-13 * sdf),
+                             ("xi", "xi", xif, 2e-14 * max(xif, 1e-3))])
+    ST = "stage_%s. unfold src_eps in *. c07." % uid
+    base = dict(config=cfg, filt_idx=fi)
+    c = bank.centers_hz[fi]
+    G.add(pre, near("(e0 + e1) / 2", c, abs_tol(c)), "unfold src_eps; c07.", dict(base, observe="centers_hz", value=float(c)))
+    lo, hi = (float(v) for v in bank.supports_hz[fi])
+    G.add(pre, near("a2h (xi - dang) rate", lo, abs_tol(lo) + 1e-9 * abs(hi - lo)), ST, dict(base, observe="supports_hz[0]", value=lo))
+    G.add(pre, near("a2h (xi + dang) rate", hi, abs_tol(hi) + 1e-9 * abs(hi - lo)), ST, dict(base, observe="supports_hz[1]", value=hi))
+    l, r = (int(v) for v in bank.supports[fi])
+    if l != -r:
+        G.add("", "False", "idtac.", dict(base, observe="supports", value=[l, r], note="not symmetric"))
+        return
+    G.add(pre, int_bounds("gabor_diff_samps_real eps %s sd" % l2, r), "stage_%s. unfold src_eps in *. split; c07." % uid,
+          dict(base, observe="supports", value=[l, r]))
+    # impulse response samples
+    W = base_width(bank, fi) + rng.randrange(0, 3)
+    if W > 4000:
+        return
+    x = bank.get_impulse_response(fi, W)
+    js = sorted(set([0, 1, W - 1, min(r, W - 1), min(r + 1, W - 1), rng.randrange(W), rng.randrange(min(W, r + 2))]))
+    for j in js:
+        v = complex(x[j])
+        case = dict(base, observe="get_impulse_response", width=W, sample=j, value=[v.real, v.imag])
+        G.add(pre, near("fst (gabor_ir %s sd xi %d %d)" % (l2, W, j), v.real, 1e-9), "rewrite gabor_ir_re. " + ST, case)
+        G.add(pre, near("snd (gabor_ir %s sd xi %d %d)" % (l2, W, j), v.imag, 1e-9), "rewrite gabor_ir_im. " + ST, case)
+    # frequency response samples
+    X = bank.get_frequency_response(fi, W)
+    lo_a = 2 * math.pi * lo / cfg["rate"]
+    hi_a = 2 * math.pi * hi / cfg["rate"]
+    if abs(lo_a) < 1e-7 or abs(hi_a / (2 * math.pi) - round(hi_a / (2 * math.pi))) < 1e-7 or abs(lo_a / (2 * math.pi) - round(lo_a / (2 * math.pi))) < 1e-7:
+        return
+    plo = -1 - int(max(-lo_a, 0) / (2 * math.pi))
+    phi = 2 + int(hi_a / (2 * math.pi))
+    if phi - plo > 6:
+        return
+    kc = int(round(c * W / cfg["rate"])) % W
+    for idx in sorted(set([0, kc, (kc + 1) % W, rng.randrange(W)])):
+        v = float(X[idx])
+        case = dict(base, observe="get_frequency_response", width=W, bin=idx, value=v)
+        stmt = near("gabor_fr %s sd xi (xi - dang) (xi + dang) %d %d" % (l2, W, idx), v, 1e-9)
+        proof = (
+            "stage_%s. unfold src_eps in *. rewrite (gabor_fr_periods _ _ _ _ _ _ _ (%d) (%d)).\n" % (uid, plo, phi)
+            + "- expand_sum. c07.\n"
+            + ("- apply gabor_period_lo_nonneg. c07.\n" if lo_a >= 0 else
+               "- apply (gabor_period_lo_neg _ (%d)); [c07 | lia | split; c07].\n" % (-1 - plo))
+            + "- unfold gabor_period_hi. rewrite (Ztrunc_eq _ (%d)); [reflexivity | lia | split; c07].\n" % (phi - 2)
+        )
+        G.add(pre, stmt, proof, case)
+
+
+def gammatone_goals(G, np, cfg, bank, fi, rng, F=None):
+    uid = "t%d" % len(G.items)
+    n = cfg["order"]
+    mc = cfg["max_centered"]
+    eps = G.eps
+    e0f, e1f = edges_float(F, cfg, fi)
+    cf = (e0f + e1f) / 2
+    xif = cf * 2 * math.pi / cfg["rate"]
+    if cfg["erb"]:
+        ac = math.log(2) * (2 * n - 1) + 2 * math.log(math.factorial(n - 1)) - math.log(math.factorial(2 * n - 2)) - math.log(2 * math.pi)
+    else:
+        ac = -0.5 * math.log(4 * 2 ** (1 / n) - 4)
+    laf = ac + math.log((e1f - e0f) * 2 * math.pi / cfg["rate"])
+    lcf = n * laf - math.log(math.factorial(n - 1))
+    dangf = math.sqrt(math.exp((2 / n) * (lcf + math.log(math.factorial(n - 1)) - math.log(eps))) - math.exp(2 * laf))
+    pre0 = edge_notations(cfg, fi) + (
+        "Local Notation la := (gt_log_alpha %s %d rate e0 e1) (only parsing).\n" % (b(cfg["erb"]), n)
+        + "Local Notation al := (exp la) (only parsing).\n"
+        + "Local Notation lc := (gt_log_c false %d la) (only parsing).\n" % n
+        + "Local Notation cc := (exp lc) (only parsing).\n"
+        + "Local Notation xi := (h2a ((e0 + e1) / 2) rate) (only parsing).\n"
+        + "Local Notation off := (gt_offset %s %d al) (only parsing).\n" % (b(mc), n)
+        + "Local Notation dang := (gt_diff_ang eps %d lc la) (only parsing).\n" % n
+    )
+    pre = pre0 + stage(uid, [("dang", "dang", dangf, 1e-12 * max(1.0, dangf)), ("la", "la", laf, 1e-13 * max(1.0, abs(laf))),
+                             ("xi", "xi", xif, 2e-14 * max(xif, 1e-3))])
+    base = dict(config=cfg, filt_idx=fi)
+    U = "stage_%s. unfold src_eps in *. c07." % uid
+    U0 = U[:-1]
+    c = bank.centers_hz[fi]
+    G.add(pre, near("(e0 + e1) / 2", c, abs_tol(c)), "unfold src_eps; c07.", dict(base, observe="centers_hz", value=float(c)))
+    lo, hi = (float(v) for v in bank.supports_hz[fi])
+    G.add(pre, near("a2h (xi - dang) rate", lo, abs_tol(lo) + 1e-9 * (hi - lo)), U, dict(base, observe="supports_hz[0]", value=lo))
+    G.add(pre, near("a2h (xi + dang) rate", hi, abs_tol(hi) + 1e-9 * (hi - lo)), U, dict(base, observe="supports_hz[1]", value=hi))
+    L, R = (int(v) for v in bank.supports[fi])
+    case = dict(base, observe="supports", value=[L, R])
+    G.add(pre, "IZR (%d) - 1 / 10000000 <= off < IZR (%d) + 1 + 1 / 10000000" % (L, L), "stage_%s. unfold src_eps in *. split; c07." % uid, case)
+    # translation validation of the support search: the stored right end satisfies the
+    # postcondition of gammatone_search_sound (then gammatone_ir_outside_validated_supports applies)
+    G.add(pre, "gt_habs cc al %d off (IZR (%d)) <= eps * (1 + 1 / 1000000000)" % (n, R),
+          "stage_%s. unfold src_eps in *. rewrite gt_habs_after by c07. c07." % uid, dict(case, clause="search postcondition"))
+    G.add(pre, "(INR %d - 1) / al - (IZR (%d) - off) <= 0" % (n, R), U, dict(case, clause="beyond the mode"))
+    alpha_f = math.exp(laf)
+    off_f = (-(n - 1) / alpha_f) if mc else 0.0
+    W = base_width(bank, fi) + rng.randrange(0, 3)
+    if W > 3000:
+        return
+    x = bank.get_impulse_response(fi, W)
+    plo = int(math.floor(L / W))
+    phi = int(math.ceil(R / W))
+    if phi - plo <= 3:
+        for j in sorted(set([0, 1, W - 1, rng.randrange(W), min(R + 1, W - 1), rng.randrange(min(W, max(R // 4, 1)))])):
+            ts = [p * W + j for p in range(plo, phi + 1)]
+            if any(abs(t - off_f) < 1e-6 for t in ts):
+                continue
+            v = complex(x[j])
+            case = dict(base, observe="get_impulse_response", width=W, sample=j, value=[v.real, v.imag])
+            for part, lem, val in (("fst", "gt_h_re", v.real), ("snd", "gt_h_im", v.imag)):
+                proof = (
+                    "stage_%s. unfold src_eps in *. rewrite (gt_ir_periods _ _ _ _ _ _ _ _ (%d) (%d)); "
+                    "[ | cbn [fst snd]; apply Zfloor_eq; split; interval | cbn [fst snd]; apply Zceil_eq; split; interval ].\n"
+                    % (uid, plo, phi)
+                    + "expand_sum. rewrite ?%s.\n" % lem
+                )
+                for t in ts:
+                    if t <= off_f:
+                        proof += "rewrite (gt_habs_before' _ _ _ _ (IZR (%d))) by c07.\n" % t
+                    else:
+                        proof += "rewrite (gt_habs_after _ _ _ _ (IZR (%d))) by c07.\n" % t
+                proof += "c07."
+                G.add(pre, near("%s (gt_ir cc al xi %d off (%d, %d)%%Z %d %d)" % (part, n, L, R, W, j), val, 1e-9), proof, case)
+    X = bank.get_frequency_response(fi, W)
+    lo_a = 2 * math.pi * lo / cfg["rate"]
+    hi_a = 2 * math.pi * hi / cfg["rate"]
+    plo = int(math.floor(lo_a / 2 / math.pi))
+    phi = int(math.ceil(hi_a / 2 / math.pi))
+    fr_ok = abs(lo_a / 2 / math.pi - round(lo_a / 2 / math.pi)) > 1e-7 and abs(hi_a / 2 / math.pi - round(hi_a / 2 / math.pi)) > 1e-7
+    if phi - plo <= 4 and fr_ok:
+        kc = int(round(c * W / cfg["rate"])) % W
+        for idx in sorted(set([0, kc, (kc + 1) % W, rng.randrange(W)])):
+            v = complex(X[idx])
+            case = dict(base, observe="get_frequency_response", width=W, bin=idx, value=[v.real, v.imag])
+            for part, lem, val in (("fst", "gt_H_re", v.real), ("snd", "gt_H_im", v.imag)):
+                proof = (
+                    "stage_%s. unfold src_eps in *. rewrite (gt_fr_periods _ _ _ _ _ _ _ _ _ (%d) (%d)); "
+                    "[ | apply Zfloor_eq; split; c07 | apply Zceil_eq; split; c07 ].\n" % (uid, plo, phi)
+                    + "expand_sum. rewrite !%s by (apply exp_pos).\n" % lem
+                    + "c07."
+                )
+                G.add(pre, near("%s (gt_fr cc al xi %d off (xi - dang) (xi + dang) %d %d)" % (part, n, W, idx), val, 1e-9), proof, case)
+
+
+def tri_like_goals(G, np, cfg, bank, fi, rng, F=None):
+    kind = cfg["kind"]
+    lh, rh = (float(v) for v in bank.supports_hz[fi])
+    mh = float(bank.centers_hz[fi])
+    pre = (
+        "Local Notation rate := (%s) (only parsing).\n" % q(cfg["rate"])
+        + "Local Notation eps := (src_eps) (only parsing).\n"
+        + "Local Notation vl := (h2a %s rate) (only parsing).\n" % q(lh)
+        + "Local Notation vm := (h2a %s rate) (only parsing).\n" % q(mh)
+        + "Local Notation vr := (h2a %s rate) (only parsing).\n" % q(rh)
+    )
+    base = dict(config=cfg, filt_idx=fi, vertices=[lh, mh, rh])
+    U = "unfold src_eps; c07."
+    l, r = (int(v) for v in bank.supports[fi])
+    K = r - l - 2
+    case = dict(base, observe="supports", value=[l, r])
+    if (l, r) != ((-K) // 2 - 1, K // 2 + 1):
+        G.add("", "False", "idtac.", dict(case, note="not of the form (-K // 2 - 1, K // 2 + 1)"))
+        return
+    fn = "tri_K_real" if kind == "tri" else "fbank_K_real"
+    G.add(pre, int_bounds("%s eps vl vm vr" % fn, K, tol=1e-6 * max(1, K)), "unfold src_eps; split; c07.", case)
+    G.add("", "tri_supports (%d) = ((%d), (%d))%%Z" % (K, l, r), "vm_compute; reflexivity.", case)
+    if kind != "tri":
+        return
+    an = b(cfg["analytic"])
+    W = base_width(bank, fi) + rng.randrange(0, 3)
+    if W > 4000:
+        return
+    x = bank.get_impulse_response(fi, W)
+    for j in sorted(set([0, 1, W - 1, rng.randrange(1, W), min(r + 1, W - 1), rng.randrange(1, min(W, r + 2))])):
+        v = complex(x[j])
+        case = dict(base, observe="get_impulse_response", width=W, sample=j, value=[v.real, v.imag])
+        if j:
+            G.add(pre, near("fst (tri_ir %s vl vm vr %d %d)" % (an, W, j), v.real, 1e-9),
+                  "rewrite tri_ir_re by (first [lia | split; %s]). %s" % (U[:-1], U), case)
+            if cfg["analytic"]:
+                G.add(pre, near("snd (tri_ir %s vl vm vr %d %d)" % (an, W, j), v.imag, 1e-9),
+                      "rewrite tri_ir_im by (first [lia | split; %s]). %s" % (U[:-1], U), case)
+        else:
+            G.add(pre, near("fst (tri_ir %s vl vm vr %d 0)" % (an, W), v.real, 1e-9),
+                  "rewrite tri_ir0_re by (first [lia | split; %s]). %s" % (U[:-1], U), case)
+
+
+def tri_goals(G, np, cfg, bank, fi, rng, F=None):
+    tri_like_goals(G, np, cfg, bank, fi, rng)
+
+
+def fbank_goals(G, np, cfg, bank, fi, rng, F=None):
+    tri_like_goals(G, np, cfg, bank, fi, rng)
+
+
+def group_body(items):
+    """Vernacular for a list of (prelude, goal, case): consecutive items sharing a prelude share a Section."""
+    body, cur, k = "", None, 0
+    for pre, g, _ in items:
+        if pre != cur:
+            if cur is not None:
+                body += "End S%d.\n" % k
+                k += 1
+            body += "Section S%d.\n%s" % (k, pre)
+            cur = pre
+        body += g
+    if cur is not None:
+        body += "End S%d.\n" % k
+    return body
